@@ -10,6 +10,7 @@ import json
 import os
 
 import vlib
+from checks import budgets_common as bc
 
 WEAK = {
     "Budgets_WeakClosed.cfg": "Inv_C05_HalfOpen",
@@ -92,6 +93,49 @@ def unit_level(run, cfg="Budgets_Gen.cfg", tag="unit"):
     return cases
 
 
+NSIM = {"quick": {"S1": 60, "S2": 40}, "thorough": {"S1": 600, "S2": 400, "S3": 400}}
+DEPTH = 14
+
+
+def mapping_level(run):
+    """Behaviours of BudgetRounds.tla (TLC simulation) replayed on a world whose cluster state is hydrated by the real
+    informer controllers; BuildDisruptionBudgetMapping is observed after every step for every reason."""
+    behs = []
+    for name, num in NSIM[run.tier].items():
+        sc = bc.with_hits(run, bc.SCENARIOS[name])
+        hs = bc.simulate(run, name, sc, num, DEPTH, env_all=True) + bc.simulate(run, name, sc, num, DEPTH, env_all=False)
+        behs += bc.mapping_behaviours(sc, hs, name)
+    bpath = os.path.join(run.work, "budget-map-behs.json")
+    json.dump(behs, open(bpath, "w"))
+    out = json.loads(run.drv("budgets-map", ["-in", bpath, "-out", os.path.join(run.work, "traces-map"), "-shards", 8]))
+    nontriv = {}
+    nmaps = 0
+    subtracting = 0
+    for f in out["files"]:
+        cur = None
+        for line in open(f):
+            ev = json.loads(line)
+            if ev["e"] == "Cfg":
+                cur = ev["beh"]
+                nontriv[cur] = False
+            elif ev["e"] == "Call" and ev["fn"] == "Map":
+                nmaps += 1
+                for p in ev["pools"]:
+                    dis = [x for x in ev["nodes"] if x["pool"] == p["pool"] and x["managed"] and x["initialized"]
+                           and (not x["ready"] or x["marked"] or x["deleting"])]
+                    if p["res"] < 2147483647 and dis:
+                        nontriv[cur] = True
+                        subtracting += 1
+    for i, b in enumerate(behs):
+        run.note_case(("map", i), nontriv.get(i, False))
+    run.validate("Budgets_Trace", "Budgets_Trace.cfg", out["files"], par=4)
+    run.extra_cov["mapping_behaviours"] = len(behs)
+    run.extra_cov["mapping_observations"] = nmaps
+    run.extra_cov["mapping_observations_with_subtraction"] = subtracting
+    run.extra_cov["mapping_steps_skipped"] = out["skipped"]
+    return behs
+
+
 def check(run):
     run.rule = ("(i) TLC enumerates the whole case space of Budgets.tla (families W window edges h-1s,h,h+d-1s,h+d,h+d+1s x "
                 "schedules x durations; V values x pool sizes 0..12; R reason lists absent/empty/each/several; L lists of 2-3 "
@@ -106,8 +150,13 @@ def check(run):
         if weak.violated != inv:
             raise vlib.InfraError("spec mutation %s not rejected by TLC with %s (got %s)" % (cfg, inv, weak.violated))
     run.notes.append("spec mutations rejected by TLC: " + ", ".join("%s -> %s" % kv for kv in WEAK.items()))
-    cases = unit_level(run)
-    run.samples = [cases[0], cases[len(cases) // 2], cases[-1]]
+    only = os.environ.get("C05_ONLY", "")
+    if only in ("", "unit"):
+        cases = unit_level(run)
+        run.samples = [cases[0], cases[len(cases) // 2], cases[-1]]
+    if only in ("", "map"):
+        behs = mapping_level(run)
+        run.samples.append({"mapping_behaviour": behs[0]["steps"], "scenario": behs[0]["tag"]})
     run.exhaustive = True
     run.extra_cov["crd_schema_notes"] = CRD_NOTES
     run.assumptions += [
